@@ -17,12 +17,12 @@ from common import qtok
 
 # ---------------------------------------------------------------- tokens
 def str_tok(s) -> str:
-    b = s.encode("utf-8") if isinstance(s, str) else bytes(s)
+    b = s.encode("utf-8", "surrogatepass") if isinstance(s, str) else bytes(s)     # lone surrogates (surrogateescape'd paths) allowed
     return b.hex() if b else "-"
 
 
 def tok_str(t: str) -> str:
-    return "" if t == "-" else bytes.fromhex(t).decode("utf-8")
+    return "" if t == "-" else bytes.fromhex(t).decode("utf-8", "surrogatepass")
 
 
 class Unsupported(Exception):
@@ -298,7 +298,7 @@ def gen_array_spec(rng, role, zero_dim=False, big=0):
 
 KEYS = ["number_of_players", "game_generator", "model_dir", "seed", "gamma", "solver", "steps", "linear", "tag",
         "extractor", "limits", "nested", "ünïcode key", "run_type", "note"]
-STRS = ["factory", "", "eval", "with space", "quote\"back\\slash", "ünïcode ✓", "line\nbreak", "superadditive"]
+STRS = ["factory", "", "eval", "with space", "quote\"back\\slash", "ünïcode ✓", "line\nbreak", "superadditive", "dir/mod\udce8les"]
 
 
 def gen_value_spec(rng, depth=0):
@@ -352,7 +352,8 @@ def gen_output_spec(rng, zero_dim=False, with_func=True, big=0):
 # run names: ordinary ones, awkward ones, and names that also occur INSIDE a stored entry as keys or values ("metadata",
 # "data", "actions", "run_type", argument names) or that are prefixes / fragments of other names or of the JSON text itself
 NAMES = ["run", "asdf", "2026-09-30T12:00:00", "ünï", "a b", "", "x" * 40, "data", "q\"uote",
-         "metadata", "actions", "run_type", "ru", "run2", "eval", "NaN", "null", "{}", "\": {", "run\": {\"data"]
+         "metadata", "actions", "run_type", "ru", "run2", "eval", "NaN", "null", "{}", "\": {", "run\": {\"data",
+         "mod\udce8les"]          # a name as Python decodes a non-UTF-8 command-line argument (surrogateescape)
 
 
 def gen_history_spec(rng, length=None, zero_dim_rate=0.0, nofunc_rate=0.0):
